@@ -303,7 +303,7 @@ def rule_r2(rep, repo):
 def _loop_graph(repo, cls, f, loop, symbols):
     """Value graphs after one symbolic iteration of ``loop`` (statements before it executed first)."""
     from gridlint import e5
-    vg = e5.VG(repo, cls, f.node, inline=False)
+    vg = e5.VG(repo, cls, f.node, inline="private")   # private helpers are looked through, properties are not
     for s in strip_docstring(f.node.body):
         if s is loop:
             break
